@@ -117,6 +117,9 @@ func runVariants(prop, repo, verif string, dirs []string) []seedResult {
 				return
 			}
 			cmd := exec.Command(self, "-property", prop, "-repo", tmp, "-verif", verif, "-no-evidence")
+			if scratchGoCache != "" {
+				cmd.Env = append(os.Environ(), "GOCACHE="+scratchGoCache)
+			}
 			out, _ := cmd.CombinedOutput()
 			seen := map[string]bool{}
 			for _, m := range ruleRe.FindAllStringSubmatch(string(out), -1) {
@@ -146,6 +149,13 @@ func thoroughExtras(prop, repo, verif string, noEvidence bool) (int, map[string]
 	extra["configurations"] = []string{"GOARCH=386", "GOARCH=(host)"}
 	if code != 0 {
 		return code, extra
+	}
+	// every scratch copy compiles the module's packages afresh for export data; with the
+	// user's build cache that is ~8 MB per variant and never trimmed. The variants therefore
+	// run against a throw-away copy of the build cache that is removed afterwards.
+	scratchGoCache = makeScratchGoCache()
+	if scratchGoCache != "" {
+		defer func() { os.RemoveAll(scratchGoCache); scratchGoCache = "" }()
 	}
 	fmt.Println("== thorough: self-validation against the committed seeded changes")
 	sv := selfValidate(prop, repo, verif)
@@ -187,3 +197,48 @@ func thoroughExtras(prop, repo, verif string, noEvidence bool) (int, map[string]
 }
 
 func thoroughImpl(prop, repo, verif string) int { return 0 }
+
+var scratchGoCache string
+
+// makeScratchGoCache: a temporary GOCACHE, seeded with a copy of the current one when that
+// is small (so dependencies are not recompiled); "" if it cannot be made.
+func makeScratchGoCache() string {
+	tmp, err := os.MkdirTemp("", "hclverif-gocache-")
+	if err != nil {
+		return ""
+	}
+	out, err := exec.Command("go", "env", "GOCACHE").Output()
+	src := strings.TrimSpace(string(out))
+	if err != nil || src == "" || src == "off" {
+		return tmp
+	}
+	// size with early stop
+	var size int64
+	tooBig := false
+	filepath.WalkDir(src, func(path string, d fs.DirEntry, err error) error {
+		if err != nil || tooBig {
+			return filepath.SkipDir
+		}
+		if !d.IsDir() {
+			if fi, err := d.Info(); err == nil {
+				size += fi.Size()
+				if size > 1<<30 {
+					tooBig = true
+				}
+			}
+		}
+		return nil
+	})
+	if tooBig {
+		return tmp // start cold rather than copy a huge cache
+	}
+	if err := copyTree(src, tmp); err != nil {
+		os.RemoveAll(tmp)
+		tmp2, err := os.MkdirTemp("", "hclverif-gocache-")
+		if err != nil {
+			return ""
+		}
+		return tmp2
+	}
+	return tmp
+}
